@@ -458,13 +458,14 @@ fn run(prop: &str, tier: &str) -> i32 {
     for l in &lines {
         println!("{}", l);
     }
+    if new_violations > 0 {
+        return 1;
+    }
     if stats.get("evaluations") == 0 {
         eprintln!("machinery error: nothing was explored");
         return 2;
     }
-    if new_violations > 0 {
-        1
-    } else {
+    {
         println!("OK property={} held on everything explored ({} known finding(s) matched)", prop, known_hits);
         0
     }
